@@ -140,6 +140,9 @@ func workerMain(args []string) int {
 				if len(c.Steps) > 60 {
 					c.Steps = append([]Step{}, c.Steps[:60]...)
 				}
+				if len(c.Points) > 12 {
+					c.Points = append([]PointAct{}, c.Points[:12]...)
+				}
 				wo.Samples = append(wo.Samples, &c)
 			}
 		}
